@@ -293,7 +293,8 @@ pub const TEXTS: [&str; 44] = [
     "", " ", "45", " 45", "45 ", "\t45", "45\n", "+45", "-45", "9e1", "9E1", "0.9e2", "900e-1", "4_5", "0x2D", "0b1", "45.", ".5", "-.5", "+.5e1", "nan", "NaN", "NAN", "inf", "-inf", "+inf", "infinity", "-Infinity",
     "1e999", "-1e999", "1e-999", "٤٥", "４５", "45°", "45,0", "45.0.0", "--45", "+-45", "e5", "1e", "1e+", "0x1p3", "45f64", "١٢",
 ];
-pub const JSONS: [&str; 30] = [
+pub const JSONS: [&str; 38] = [
+    "18446744073709551615", "18446744073709551571", "18446744073709551604", "9223372036854775808", "-9223372036854775809", "1e19", "4294967341", "-4294967251",
     "45", "45.0", "4.5e1", "-45", "90", "91", "-91", "1e999", "-1e999", "1e-999", "null", "\"45\"", "[45]", "{\"0\":45}", "true", "false", "NaN", "Infinity", "-Infinity", "", " 45 ", "045", "+45", ".5", "5.", "0x2D", "1050", "1051", "57", "58",
 ];
 
@@ -446,6 +447,14 @@ pub fn run(ctx: &Ctx, st: &mut Stats) {
         st.nontrivial_key(x.to_bits() ^ 0x5555);
     }
     st.add("cross_type_same_text_sequences", nx);
+    // fault injection, then the fixed text corpus once more (malformed input seen earlier must not change what is accepted later)
+    super::out_of_domain_calls(2);
+    for t in &tys {
+        for s in TEXTS {
+            let c = Case { ty: t.name.into(), route: "text".into(), value: None, text: Some(s.into()) };
+            check(ctx, st, &c);
+        }
+    }
     st.extra.insert("rule".into(), json!("per type: hostile values (both bounds +-1 ulp, +-0, subnormals, NaN payloads, +-inf, huge) and seeded random values pushed through every route that exists for the type (TryFrom<f64>; FromStr on shortest round-trip and exponent spellings; serde_json on float and integer spellings, judged against serde_json's own f64 reading of the same text); fixed text and JSON corpora (malformed, whitespace, hex, underscores, non-ASCII digits, nan/inf spellings, 1e999, null/string/array/bool); composite Location/Coordinates/Weather/ExtremeLatitudeMethod/Params documents with one out-of-range field; every case is non-trivial; distinct by (type, route, input) hash"));
     st.note("Pressure and Temperature have no FromStr route in the public API: for them 'the routes that exist' are TryFrom<f64> and JSON.");
 }
